@@ -1,5 +1,6 @@
 import HttpcoreModel.Drv.C19
 import HttpcoreModel.Drv.C20
+import HttpcoreModel.Drv.H1
 /-!
 Line-protocol driver: one case per input line, one answer per output line.
 First token selects the model function.  Imports model files only (no proofs, no Mathlib).
@@ -12,6 +13,8 @@ def dispatch (line : String) : String :=
   | cmd :: args =>
     if cmd = "c20" then Drv.c20 args
     else if cmd = "c19" then Drv.c19 args
+    else if cmd = "h1read" then Drv.h1read args
+    else if cmd = "h1upgrade" then Drv.h1upgrade args
     else "bad-cmd"
 
 partial def loop (h : IO.FS.Stream) (out : IO.FS.Stream) : IO Unit := do
